@@ -379,6 +379,12 @@ def run_trading(rnd, S, cfgk, intensity=1.0, script=None, analyser=False, ids=No
                             call.update(api="order_shares", args=(oid, q, None))
                             return api.order_shares(oid, q)
                         out.append(f6)
+        # value-based sales of exact multiples of a price like 11.3 (3390 / 11.3 is 300 only under the module's 10-digit decimal context)
+        if S.get("_decsell") and stocks and "STOCK" in context.portfolio.accounts:
+            def f10(call, before, oid=stocks[0], v=-round(300 * S["_decsell"], 2)):
+                call.update(api="order_value", args=(oid, v, None))
+                return api.order_value(oid, v)
+            out.append(f10)
         # order_target_portfolio with the caller's limit prices (plain price, LimitOrder, or an (open, close) pair)
         if S.get("_otp") and stocks and "STOCK" in context.portfolio.accounts and reseed_key is None and srnd.random() < 0.2:
             picks = srnd.sample(stocks, min(len(stocks), srnd.choice([1, 2])))
